@@ -46,3 +46,29 @@ Print Assumptions C04_abs.
 Print Assumptions C04_grow_shrink_preserve.
 Print Assumptions C04_panics_exact.
 Print Assumptions C04_no_retention.
+
+(* ---- the shipped constants (regenerated from the Go source on every run) meet the guards ---- *)
+From Juniper Require Import Generated.Params.
+
+Theorem C04_params_ok : 1 <= deque_minSize /\ 2 <= deque_growMul.
+Proof. unfold deque_minSize, deque_growMul; split; lia. Qed.
+
+Theorem C04_refinement_shipped : forall ops : list (op Z),
+    forallb seq_op ops = true ->
+    run 0 deque_minSize deque_growMul st0 ops = srun [] ops.
+Proof. exact (C04_refinement 0 deque_minSize deque_growMul (proj1 C04_params_ok) (proj2 C04_params_ok)). Qed.
+
+Theorem C04_no_retention_shipped : forall ops : list (op Z),
+    clean 0 (sd (run_state 0 deque_minSize deque_growMul st0 ops)).
+Proof. exact (C04_no_retention 0 deque_minSize deque_growMul (proj1 C04_params_ok) (proj2 C04_params_ok)). Qed.
+
+(* non-vacuity: a history that wraps, fills, reallocates and shrinks to capacity 0 *)
+Example C04_history_runs :
+  let ops := [OpPushBack 1; OpPushFront 2; OpPopBack; OpShrink 0; OpPushFront 3; OpGrow 40; OpIterate; OpPopFront; OpPopFront; OpShrink 0; OpLen] in
+  run 0 deque_minSize deque_growMul st0 ops = srun [] ops /\
+  srun [] ops = [OUnit; OUnit; OVal 1; OUnit; OUnit; OUnit; OList [3; 2]; OVal 3; OVal 2; OUnit; OInt 0].
+Proof. vm_compute. split; reflexivity. Qed.
+
+Print Assumptions C04_params_ok.
+Print Assumptions C04_refinement_shipped.
+Print Assumptions C04_no_retention_shipped.
